@@ -9,7 +9,10 @@
 (*     ev  |-> << [k, s, o (, rc)] ... >>]                                 *)
 (* k: "blocked" (the monitor thread yielded: asleep / waiting for its task *)
 (*    / in the WINDOW / gone), the environment events "notify", "output",  *)
-(*    "extkill", "timer" (the kill-delay timer fired), and the             *)
+(*    "extkill", "timer" (the kill-delay timer fired), "pfinish" (producer *)
+(*    component p finished, shapes other than "direct"; its observe-mode   *)
+(*    twin "pfin" is logged before the hops are drained and "notified" when *)
+(*    the real notify_all_producers_finished() is entered), and the        *)
 (*    informational "launch" (task generator called), "rc" (task ended),   *)
 (*    "fault" (a listing of the producer's directory raised OSError),      *)
 (*    "end" (run cut at the horizon).  s: stamp in half seconds.           *)
@@ -59,7 +62,7 @@ AtYield == Blocked \/ pc \in {"window", "dead"}
 
 Conform ==
     /\ tmode = "conform" /\ l < N /\ UNCHANGED <<tid, tmode, ob>>
-    /\ \/ /\ E.k \in {"launch", "rc", "end", "fault"} /\ now = E.s \div 2   \* informational for this mode
+    /\ \/ /\ E.k \in {"launch", "rc", "end", "fault", "pfin", "notified"} /\ now = E.s \div 2   \* informational for this mode
           /\ l' = l + 1 /\ UNCHANGED vars
        \/ /\ E.k = "blocked" /\ AtYield /\ ObsNow = E.o
           /\ l' = l + 1 /\ UNCHANGED vars
@@ -67,7 +70,8 @@ Conform ==
           /\ MonitorStep /\ UNCHANGED l
        \/ /\ now < E.s \div 2
           /\ Tick /\ UNCHANGED l
-       \/ /\ E.k = "notify" /\ Stamp = E.s /\ NotifyProducersFinished /\ ObsNow' = E.o /\ l' = l + 1
+       \/ /\ E.k = "notify" /\ Stamp = E.s /\ ProducerFinishes(1) /\ ObsNow' = E.o /\ l' = l + 1
+       \/ /\ E.k = "pfinish" /\ Stamp = E.s /\ ProducerFinishes(E.p) /\ ObsNow' = E.o /\ l' = l + 1
        \/ /\ E.k = "output" /\ Stamp = E.s /\ NewOutput /\ ObsNow' = E.o /\ l' = l + 1
        \/ /\ E.k = "extkill" /\ Stamp = E.s /\ ExternalKill /\ ObsNow' = E.o /\ l' = l + 1
        \/ /\ E.k = "timer" /\ timer2 = E.s /\ KillDelay /\ ObsNow' = E.o /\ l' = l + 1
@@ -76,7 +80,8 @@ Observe ==
     /\ tmode = "observe" /\ l < N /\ UNCHANGED <<tid, tmode>>
     /\ l' = l + 1 /\ ob' = E.o
     /\ h' = CASE E.k = "output"  -> HOutput(h, E.s)
-              [] E.k = "notify"  -> HNotify(h, E.s \div 2)
+              [] E.k \in {"notify", "notified"} -> HNotify(h, E.s \div 2, NLiveSeen(cfg.shape))
+              [] E.k = "pfin"    -> HPFinish(h, E.p, E.s \div 2, NLiveSeen(cfg.shape))
               [] E.k = "timer"   -> HTimer(h)
               [] E.k = "extkill" -> HExt(h)
               [] E.k = "launch"  -> HLaunch(h, E.s \div 2, cfg.mode)
@@ -90,7 +95,8 @@ TNext == Conform \/ Observe
 TSpec == TInit /\ [][TNext]_<<vars, tvars>>
 
 Verdicts(alive, rt, t) ==
-    [p1 |-> P1_NoExecutionBeforeOutput(h),
+    [p0 |-> P0_NotifiedOnlyWhenFinished(h),
+     p1 |-> P1_NoExecutionBeforeOutput(h),
      p2 |-> P2_FinalOutputObserved(h, alive, cfg.mode),
      p3a |-> P3_BoundedAttempts(h, cfg),
      p3b |-> P3_StopsForAReason(h, alive, rt),
@@ -98,7 +104,7 @@ Verdicts(alive, rt, t) ==
 
 Report ==
     LET v == IF tmode = "observe" THEN Verdicts(ob.alive, ob.retries, ob.now) ELSE Verdicts(Alive, retries, now)
-        good == v.p1 /\ v.p2 /\ v.p3a /\ v.p3b /\ v.p3c
+        good == v.p0 /\ v.p1 /\ v.p2 /\ v.p3a /\ v.p3b /\ v.p3c
     IN (l = N \/ (tmode = "observe" /\ ~good) \/ Verbose) =>
           PrintT(ToJson([tid |-> tid, m |-> tmode, l |-> l, done |-> (l = N), dev |-> dev, v |-> v, now |-> now, pc |-> pc]))
 =============================================================================
